@@ -397,7 +397,67 @@ def f8_history_complete(prog, ctx):
             ctx.ok("F8", "%s only appends to the history" % name, f.where, "no element is released or moved")
 
 
+def f9_out_params_start_fresh(prog, ctx):
+    """F9  the count and the list the history builder hands back are results, not inputs: `*size` (and `*key_files`) are set by the
+    builder before it reads them.  A builder that only increments the caller's variable returns a history whose length depends on
+    what the variable happened to hold - the two variants then disagree for a caller that reuses its variables."""
+    if not prog.has_fn("readConfigHistoryWithCallback"):
+        return
+    f = prog.fn("readConfigHistoryWithCallback")
+    cfg = f.cfg
+    for pn in ("size", "key_files"):
+        if f.param(pn) is None:
+            continue
+        tgt = "*" + pn
+        fresh = []
+        for lhs, rhs, st, kind in query.stores(f):
+            if render(lhs) == tgt and kind == "=" and rhs is not None and tgt not in render(rhs) and ("(%s)" % tgt) not in render(rhs):
+                fresh.append(st)
+        reads = []
+        for u in f.walk():
+            if u.k == "UnaryOperator" and u.j.get("op") == "*" and render(u) == tgt:
+                up = u.up()
+                if up is not None and up.k == "BinaryOperator" and up.j.get("op") == "=" and up.children[0].strip() is u:
+                    continue        # a plain store
+                reads.append(u)
+        if not reads:
+            continue
+        fb = set(cfg.block_of(s2) for s2 in fresh)
+        bad = None
+        for u in reads:
+            ub = cfg.block_of(u)
+            if ub is None:
+                continue
+            if ub in fb:
+                # same block: the store must come first
+                if any(cfg.block_of(s2) == ub and cfg.index_of(s2) < cfg.index_of(u) for s2 in fresh):
+                    continue
+            if ub in cfg.reachable(cfg.entry, avoid_blocks=fb - {ub}) :
+                if ub in fb and any(cfg.block_of(s2) == ub and cfg.index_of(s2) < cfg.index_of(u) for s2 in fresh):
+                    continue
+                bad = u
+                break
+        if bad is not None:
+            ctx.fail("F9", "the builder sets `%s` before it reads it" % tgt, bad.where,
+                     "`%s` is read (%s) on a path on which the function has not assigned it: the length of the history depends on the value the caller's "
+                     "variable held before the call" % (tgt, render(bad.up() or bad)[:50]), key="out-param-read:%s" % pn)
+        else:
+            ctx.ok("F9", "the builder sets `%s` before it reads it" % tgt, (fresh[0] if fresh else f).where, "every read is behind an assignment made by the builder")
+
+
+def f6c_mask_exclusions(prog, ctx):
+    """F6c  the merged read folds the history with the rule `a later file of the same name replaces an earlier one`; the only names
+    outside that rule are "." and ".." (= C01.L10 exclusions)"""
+    from rules import C01 as _C01
+    try:
+        _C01.l10_mask_exclusions(prog, ctx, rule="F6")
+    except Inconclusive as e:
+        ctx.inconclusive("F6", "names outside the masking rule", "", str(e))
+
+
 def run(prog, ctx):
+    f6c_mask_exclusions(prog, ctx)
+    f9_out_params_start_fresh(prog, ctx)
     f8_history_complete(prog, ctx)
     f6b_f7b(prog, ctx)
     f1_f3_f5(prog, ctx)
